@@ -1311,6 +1311,170 @@ impl<'a> Session<'a> {
                 self.mark_value_change();
                 Res::Ok
             }
+            Op::RemoveTtl => {
+                self.tx.remove_ttl();
+                self.mark_value_change();
+                Res::Ok
+            }
+            Op::RemoveStart => {
+                self.tx.remove_validity_start_interval();
+                self.mark_value_change();
+                Res::Ok
+            }
+            Op::RemoveCerts => {
+                self.tx.remove_certs();
+                self.certs = csl::CertificatesBuilder::new();
+                for a in self.h.attaches.iter_mut() {
+                    if matches!(a.purpose, Purpose::Cert(_)) {
+                        a.live = false;
+                    }
+                }
+                self.mark_value_change();
+                self.mark_script_change();
+                Res::Ok
+            }
+            Op::RemoveWithdrawals => {
+                self.tx.remove_withdrawals();
+                self.wdrs = csl::WithdrawalsBuilder::new();
+                for a in self.h.attaches.iter_mut() {
+                    if matches!(a.purpose, Purpose::Reward(_)) {
+                        a.live = false;
+                    }
+                }
+                self.mark_value_change();
+                self.mark_script_change();
+                Res::Ok
+            }
+            Op::RemoveMint => {
+                self.tx.remove_mint_builder();
+                self.mint = csl::MintBuilder::new();
+                for a in self.h.attaches.iter_mut() {
+                    if matches!(a.purpose, Purpose::Mint(_)) {
+                        a.live = false;
+                    }
+                }
+                self.mark_value_change();
+                self.mark_script_change();
+                Res::Ok
+            }
+            Op::RemoveAux => {
+                self.tx.remove_auxiliary_data();
+                self.mark_value_change();
+                Res::Ok
+            }
+            Op::RemoveScriptDataHash => {
+                self.tx.remove_script_data_hash();
+                self.sdh_at = None;
+                self.mark_value_change();
+                Res::Ok
+            }
+            Op::SetCertsLegacy => {
+                // only certificates that need no script witness can go through the old setter
+                let built = self.certs.build();
+                let mut plain = csl::Certificates::new();
+                for i in 0..built.len() {
+                    let c = built.get(i);
+                    if !c.has_required_script_witness() {
+                        plain.add(&c);
+                    }
+                }
+                let tx = &mut self.tx;
+                #[allow(deprecated)]
+                let r = guard(|| tx.set_certs(&plain));
+                if r.is_ok() {
+                    let mut nb = csl::CertificatesBuilder::new();
+                    for i in 0..plain.len() {
+                        let _ = nb.add(&plain.get(i));
+                    }
+                    self.certs = nb;
+                    for a in self.h.attaches.iter_mut() {
+                        if matches!(a.purpose, Purpose::Cert(_)) {
+                            a.live = false;
+                        }
+                    }
+                }
+                self.mark_value_change();
+                self.mark_script_change();
+                match r {
+                    Ok(()) => Res::Ok,
+                    Err(r) => r,
+                }
+            }
+            Op::SetWithdrawalsLegacy => {
+                let built = self.wdrs.build();
+                let mut plain = csl::Withdrawals::new();
+                let keys = built.keys();
+                for i in 0..keys.len() {
+                    let ra = keys.get(i);
+                    if !ra.payment_cred().has_script_hash() {
+                        if let Some(c) = built.get(&ra) {
+                            plain.insert(&ra, &c);
+                        }
+                    }
+                }
+                let tx = &mut self.tx;
+                #[allow(deprecated)]
+                let r = guard(|| tx.set_withdrawals(&plain));
+                if r.is_ok() {
+                    let mut nb = csl::WithdrawalsBuilder::new();
+                    let keys = plain.keys();
+                    for i in 0..keys.len() {
+                        let ra = keys.get(i);
+                        if let Some(c) = plain.get(&ra) {
+                            let _ = nb.add(&ra, &c);
+                        }
+                    }
+                    self.wdrs = nb;
+                    for a in self.h.attaches.iter_mut() {
+                        if matches!(a.purpose, Purpose::Reward(_)) {
+                            a.live = false;
+                        }
+                    }
+                }
+                self.mark_value_change();
+                self.mark_script_change();
+                match r {
+                    Ok(()) => Res::Ok,
+                    Err(r) => r,
+                }
+            }
+            Op::MintLegacy { script, name, qty, set } => {
+                need!(self.script_ok(*script));
+                let ns = match self.w.script_val(*script) {
+                    ScriptVal::Native(n) => n,
+                    _ => return Res::Skipped("legacy mint needs a native script"),
+                };
+                let an = match csl::AssetName::new(name.clone()) {
+                    Ok(a) => a,
+                    Err(_) => return Res::Skipped("asset name"),
+                };
+                let amount = if *qty >= 0 { csl::Int::new(&bn(*qty as u64)) } else { csl::Int::new_negative(&bn(qty.unsigned_abs())) };
+                let tx = &mut self.tx;
+                #[allow(deprecated)]
+                let r = guard(|| {
+                    if *set {
+                        let ma = csl::MintAssets::new_from_entry(&an, &amount)?;
+                        tx.set_mint_asset(&ns, &ma)
+                    } else {
+                        tx.add_mint_asset(&ns, &an, &amount)
+                    }
+                });
+                if let Some(mb) = self.tx.get_mint_builder() {
+                    self.mint = mb;
+                }
+                self.mark_value_change();
+                self.mark_script_change();
+                match r {
+                    Ok(()) => Res::Ok,
+                    Err(r) => r,
+                }
+            }
+            Op::SetInputsAgain => {
+                self.tx.set_inputs(&self.inb);
+                self.mark_value_change();
+                self.mark_script_change();
+                Res::Ok
+            }
             Op::Select(s, ids) => {
                 let (obs, ev0) = self.select_pre(idx, *s, ids, sim, false);
                 let offered = self.offered(ids);
